@@ -448,8 +448,10 @@ Error RACFGBuilder::on_instruction(InstNode* inst, InstControlFlow& cf, RAInstBu
         uint32_t rewrite_mask = Support::bit_mask<uint32_t>(inst->_get_rewrite_index(&inst->extra_reg()._id));
 
         if (group == RegGroup::kMask) {
-          // AVX-512 mask selector {k} register - read-only, allocable to any register except {k0}.
-          ASMJIT_PROPAGATE(ib.add(work_reg, RATiedFlags::kUse | RATiedFlags::kRead, in_out_regs, Reg::kIdBad, rewrite_mask, in_out_regs, Reg::kIdBad, 0));
+          // AVX-512 mask selector {k} register - allocable to any register except {k0}. It's read-only except for
+          // gather and scatter instructions, which clear the mask bits of the elements they have completed.
+          RATiedFlags mask_rw = inst_info.is_vsib_op() ? RATiedFlags::kRW : RATiedFlags::kRead;
+          ASMJIT_PROPAGATE(ib.add(work_reg, RATiedFlags::kUse | mask_rw, in_out_regs, Reg::kIdBad, rewrite_mask, in_out_regs, Reg::kIdBad, 0));
           single_reg_ops = 0u;
         }
         else {
